@@ -113,6 +113,12 @@ class ServiceDecorator(Decorator):
 
     async def start(self) -> None:
         """Register the service under each of its names (all of them, or none if one is refused)."""
+        ctx_name = self.dm.ast_ctx.get_global_ctx_name()
+        for domain, name in self.args:
+            owner = Function.service2global_ctx.get(f"{domain}.{name}", ctx_name)
+            if owner != ctx_name:
+                raise ValueError(f"{ctx_name}: can't register service {domain}.{name}; already defined in {owner}")
+
         registered = []
         try:
             for domain, name in self.args:
@@ -126,15 +132,15 @@ class ServiceDecorator(Decorator):
                 )
                 registered.append((domain, name))
                 async_set_service_schema(Function.hass, domain, name, self.description)
+
+            # update service params. In the legacy implementation, Pyscript services were registered
+            # right after the function definition, then decorators were executed, and finally the
+            # service cache was updated.
+            await State.get_service_params()
         except Exception:
             for domain, name in registered:
                 Function.service_remove(self.dm.ast_ctx.global_ctx.get_name(), domain, name)
             raise
-
-        # update service params. In the legacy implementation, Pyscript services were registered
-        # right after the function definition, then decorators were executed, and finally the
-        # service cache was updated.
-        await State.get_service_params()
 
     async def stop(self) -> None:
         """Unregister the service names."""
